@@ -16,16 +16,6 @@ Record NumOps (T : Type) := mkOps {
 Arguments n0 {T}. Arguments nadd {T}. Arguments nsub {T}. Arguments nmul {T}.
 Arguments nleb {T}. Arguments nofZ {T}. Arguments nfloor {T}. Arguments nceil {T}.
 
-Inductive outcome (I : Type) :=
-| Ok (l : list I)        (* a LocalGrid *)
-| AssertFail             (* assert (ilc_min <= ilc_max).all() *)
-| EmptyConcat            (* np.concatenate([]) : ValueError *)
-| Broadcast.             (* points * recivecs with shapes (N,) (0,) : ValueError in __init__ *)
-Arguments Ok {I}. Arguments AssertFail {I}. Arguments EmptyConcat {I}. Arguments Broadcast {I}.
-
-Definition items {I} (o : outcome I) : list I := match o with Ok l => l | _ => [] end.
-Definition is_ok {I} (o : outcome I) : bool := match o with Ok _ => true | _ => false end.
-
 Definition null {X} (l : list X) : bool := match l with [] => true | _ => false end.
 
 (* inclusive integer range lo..hi (empty when hi < lo) *)
@@ -107,8 +97,9 @@ Definition ranges (B : list vec) (g : list (vec * list T)) (c : vec) (r : T) : l
          range (lmin (col k fr)) (lmax (col k fr)) (dot b c) (r *! r *! dot b b))
       (combine (seq 0 (length B)) B).
 
-(* 1-D path (points.ndim == 1): recivecs = 1 / realvecs, spacings = 1 / recivecs (signed!),
-   ilc_min = ceil (lo - b c - r / s) with r / s = r b,  ilc_max = floor (hi - b c + r b) *)
+(* 1-D path (points.ndim == 1): recivecs = 1 / realvecs, spacings = abs(1 / recivecs),
+   ilc_min = ceil (lo - b c - r / s) with r / s = r |b|,  ilc_max = floor (hi - b c + r |b|) *)
+Definition nabs (x : T) : T := if n0 O <=?! x then x else n0 O -! x.
 Definition range1d (lo hi fc rb : T) : list Z :=
   let x := lo -! fc -! rb in
   let y := hi -! fc +! rb in
@@ -116,7 +107,7 @@ Definition range1d (lo hi fc rb : T) : list Z :=
 
 Definition ranges1d (b : T) (g : list (vec * list T)) (c r : T) : list (list Z) :=
   let fr := map snd g in
-  [range1d (lmin (col 0 fr)) (lmax (col 0 fr)) (b *! c) (r *! b)].
+  [range1d (lmin (col 0 fr)) (lmax (col 0 fr)) (b *! c) (r *! nabs b)].
 
 (* -------- get_localgrid, part C: loop over the displaced centres -------------------------------------- *)
 Variable ball : list vec -> vec -> T -> list nat.     (* cKDTree(points).query_ball_point(center, r, p=2) *)
@@ -126,27 +117,24 @@ Definition gather (A : list vec) (pts : list vec) (wts : list W) (c : vec) (r : 
   flat_map (fun ilc => let d := lincomb ilc A in
               map (fun i => (i, vsub (nth i pts v0) d, nth i wts wd)) (ball pts (vadd c d) r)) box.
 
+(* an empty range in some direction gives an empty product, no image found gives the empty LocalGrid *)
 Definition finish (A : list vec) (pts : list vec) (wts : list W) (c : vec) (r : T)
-                  (rs : list (list Z)) : outcome item :=
-  if existsb null rs then AssertFail
-  else let l := gather A pts wts c r (product rs) in
-       if null l then EmptyConcat else Ok l.
+                  (rs : list (list Z)) : list item :=
+  gather A pts wts c r (product rs).
 
 (* PeriodicGrid(points(N,M), weights, realvecs(K,M), wrap).get_localgrid(c, r) *)
 Definition local (A B : list vec) (wrap : bool) (pts : list vec) (wts : list W) (c : vec) (r : T)
-  : outcome item :=
+  : list item :=
   let g := build A B wrap pts in
   finish A (map fst g) wts c r (ranges B g c r).
 
 (* PeriodicGrid(points(N,), weights, realvecs(1,) or None, wrap).get_localgrid(c, r);
-   scalars are embedded as (x, 0, 0); B = [(1/a, 0, 0)] *)
+   scalars are embedded as (x, 0, 0); B = [(1/a, 0, 0)]; without lattice vectors frac_intvls has no rows *)
 Definition local1d (A B : list vec) (wrap : bool) (pts : list vec) (wts : list W) (c : vec) (r : T)
-  : outcome item :=
-  match B with
-  | [] => Broadcast
-  | b :: _ => let g := build A B wrap pts in
-              finish A (map fst g) wts c r (ranges1d (fst (fst b)) g (fst (fst c)) r)
-  end.
+  : list item :=
+  let g := build A B wrap pts in
+  finish A (map fst g) wts c r
+         (match B with [] => [] | b :: _ => ranges1d (fst (fst b)) g (fst (fst c)) r end).
 
 (* stored points of the grid object (PeriodicGrid.points) *)
 Definition stored_points (A B : list vec) (wrap : bool) (pts : list vec) : list vec :=
